@@ -22,7 +22,7 @@
 (*   got   byte ranges <<a,b>> received while live;  rd  bytes the application has read   *)
 (*   fin   known final size (-1 unknown);  soft  final sizes seen after CloseRead         *)
 (*   rst   code of a received RESET_STREAM (-1 none);  cr  application closed reading     *)
-(*   eof   a Read returned io.EOF;  rac  a Read was issued after CloseRead                *)
+(*   eof   a Read returned io.EOF;  rac  a Read was issued after CloseRead / reset       *)
 (* Connection (cx): cs / cr  which streams E may send / receive on, omax peer's MAX_DATA, *)
 (*   imax MAX_DATA advertised by E, sent = frames in packets not yet acknowledged,        *)
 (*   dead = E closed the connection, dev = named deviations taken (known findings).       *)
@@ -203,9 +203,10 @@ DieWith(d) == /\ cx' = [cx EXCEPT !.dead = TRUE, !.dev = @ \cup d] /\ UNCHANGED 
 (*  UncountedAfterCloseRead / NoFlowErrorAfterCloseRead: once the application has closed      *)
 (*    reading, E neither charges later STREAM bytes to its connection-level count nor checks  *)
 (*    them against MAX_DATA (and never returns the credit: StallAfterCloseRead, see Quiesce). *)
-(*  EndMovedByReadAfterCloseRead / SpuriousFinalSizeAfterCloseRead: a Read issued after        *)
-(*    CloseRead can move E's idea of the highest received offset (rac); a later RESET_STREAM   *)
-(*    or FIN is then charged too little or refused with FINAL_SIZE_ERROR although consistent.  *)
+(*  EndMovedByLateRead / SpuriousFinalSizeAfterLateRead: a Read issued after CloseRead or     *)
+(*    after a RESET_STREAM arrived (rac) can move E's idea of the highest received offset;     *)
+(*    a later RESET_STREAM or FIN - even a retransmission of the same one - is then charged     *)
+(*    too little or refused with FINAL_SIZE_ERROR although it is consistent.                    *)
 
 (* STREAM frame from the peer.  wb = E's connection-level byte count afterwards (white box, *)
 (* -1 if not available).  RFC 9000 4.1 / 4.5.                                               *)
@@ -235,7 +236,7 @@ PeerStream(s, off, len, fin, gone, outcome, wb) ==
     /\ cx.cr[s] /\ ~cx.dead /\ off >= 0 /\ len >= 0
     /\ IF gone THEN outcome = "ok" /\ UNCHANGED <<snd, rcv, cx>>
        ELSE /\ OutcomeOK(mustAll, mayAll, outcome) = TRUE
-            /\ IF outcome # "ok" THEN DieWith(IF spurious THEN {"SpuriousFinalSizeAfterCloseRead"} ELSE {})
+            /\ IF outcome # "ok" THEN DieWith(IF spurious THEN {"SpuriousFinalSizeAfterLateRead"} ELSE {})
                ELSE /\ ((J("C20") /\ wb >= 0) => wb = ICntSum - r.cnt + cnt2) = TRUE
                     /\ rcv' = [rcv EXCEPT ![s] =
                          IF live
@@ -257,23 +258,23 @@ PeerReset(s, final, code, gone, outcome, wb) ==
         vConn   == useC > cx.imax
         vFinal  == (r.fin >= 0 /\ final # r.fin) \/ final < r.hl
         sFinal  == final < r.hi \/ (r.soft # {} /\ final \notin r.soft)
-        corrupt == r.rac /\ ~live /\ r.rst < 0
+        corrupt == r.rac /\ ~live
         mustAll == (IF vStream \/ vConn THEN {"FLOW"} ELSE {}) \cup (IF vFinal THEN {"FINAL"} ELSE {})
         mayAll  == IF ~live /\ (sFinal \/ corrupt) THEN {"FINAL"} ELSE {}
         cntW    == wb - (ICntSum - r.cnt)                          \* what E charged according to the white box
-        moved   == corrupt /\ wb >= 0 /\ wb # useC /\ cntW >= 0
+        moved   == corrupt /\ r.rst < 0 /\ wb >= 0 /\ wb # useC /\ cntW >= 0
         c2      == IF moved THEN cntW ELSE c1
         spurious == corrupt /\ outcome = "FINAL" /\ ~vFinal /\ ~sFinal
     IN
     /\ cx.cr[s] /\ ~cx.dead /\ final >= 0
     /\ IF gone THEN outcome = "ok" /\ UNCHANGED <<snd, rcv, cx>>
        ELSE /\ OutcomeOK(mustAll, mayAll, outcome) = TRUE
-            /\ IF outcome # "ok" THEN DieWith(IF spurious THEN {"SpuriousFinalSizeAfterCloseRead"} ELSE {})
+            /\ IF outcome # "ok" THEN DieWith(IF spurious THEN {"SpuriousFinalSizeAfterLateRead"} ELSE {})
                ELSE /\ IF r.rst >= 0 THEN UNCHANGED rcv
                        ELSE rcv' = [rcv EXCEPT ![s] = [r EXCEPT !.hi = Max2(@, final), !.hl = Max2(@, final),
                                                                !.cnt = c2, !.fin = final, !.rst = code]]
                     /\ ((J("C20") /\ wb >= 0) => wb = (IF r.rst >= 0 THEN ICntSum ELSE ICntSum - r.cnt + c2)) = TRUE
-                    /\ cx' = [cx EXCEPT !.dev = @ \cup (IF moved THEN {"EndMovedByReadAfterCloseRead"} ELSE {})]
+                    /\ cx' = [cx EXCEPT !.dev = @ \cup (IF moved THEN {"EndMovedByLateRead"} ELSE {})]
                     /\ UNCHANGED snd
 
 (* ----------------------- application, receive side ------------------------ *)
@@ -297,7 +298,7 @@ ReadOK(s, mx, n, res, b0, b1, cont, code) ==
 AppRead(s, mx, n, res, b0, b1, cont, code) ==
     /\ cx.cr[s] /\ n >= 0
     /\ ReadOK(s, mx, n, res, b0, b1, cont, code) = TRUE     \* (= TRUE: evaluated as a state predicate)
-    /\ rcv' = [rcv EXCEPT ![s].rd = @ + n, ![s].eof = @ \/ res = "eof", ![s].rac = @ \/ rcv[s].cr]
+    /\ rcv' = [rcv EXCEPT ![s].rd = @ + n, ![s].eof = @ \/ res = "eof", ![s].rac = @ \/ ~Live(s)]
     /\ UNCHANGED <<snd, cx>>
 
 AppCloseRead(s) ==
@@ -346,8 +347,8 @@ FinalOK ==
             /\ (J("C32") /\ snd[s].rq # {}) => ((snd[s].rs /\ snd[s].ra) \/ AllAcked(s))
 
 (* deviations that are violations of the property being judged *)
-Flagged == (IF J("C20") THEN {"NoFlowErrorAfterCloseRead", "EndMovedByReadAfterCloseRead"} ELSE {})
-           \cup (IF J("C32") THEN {"SpuriousFinalSizeAfterCloseRead"} ELSE {})
+Flagged == (IF J("C20") THEN {"NoFlowErrorAfterCloseRead", "EndMovedByLateRead"} ELSE {})
+           \cup (IF J("C32") THEN {"SpuriousFinalSizeAfterLateRead"} ELSE {})
            \cup (IF J("C19") THEN {"StallAfterCloseRead"} ELSE {})
 
 -----------------------------------------------------------------------------
